@@ -3,7 +3,7 @@
 From Coq Require Import String ZArith List Bool.
 From FcpV Require Import Base.Bits Schema.Types Wire.Wire Wire.WireProofs Py.PySerde Py.PySerdeProofs.
 From FcpV Require Import Corr.Serde gen.StdVectors.
-From FcpV Require Import Py.BufferLib gen.PyBuffer Py.BufferProofs.
+From FcpV Require Import Py.BufferLib gen.PyBuffer Py.BufferProofs gen.PyLeaf Py.LeafProofs.
 Import ListNotations.
 Open Scope Z_scope.
 
@@ -110,3 +110,81 @@ Print Assumptions buffer_decode_starts_from_input_bits.
 Example c02_buffer_nonvacuous :
   W 0 [] /\ (exists self u, py_push_word py_init (-3) 5 = POk (self, u) /\ py_get_buffer self = POk (self, [29])).
 Proof. split; [exact W_init|]. eexists. eexists. split; vm_compute; reflexivity. Qed.
+
+(* ---- the leaf codecs of serde.py (gen/PyLeaf.v, translated from _encode_builtin_* / _decode_builtin_* on every run) are the
+   leaves of the wire format: an integer of width m is its m low bits, a float / double the 32 / 64 bits of its pattern ---- *)
+
+Theorem leaf_encode_unsigned_is_wire :
+  forall n buf m z, W n buf ->
+    exists buf', py__encode_builtin_unsigned (mk buf (Z.of_nat n)) (num m) z = POk (mk buf' (Z.of_nat (n + m)), tt) /\
+                 W (n + m) buf' /\ enc_abs buf' (n + m) = enc_abs buf n ++ bits_of_Z m z.
+Proof. exact encode_unsigned_appends. Qed.
+Print Assumptions leaf_encode_unsigned_is_wire.
+
+Theorem leaf_encode_signed_is_wire :
+  forall n buf m z, W n buf ->
+    exists buf', py__encode_builtin_signed (mk buf (Z.of_nat n)) (num m) z = POk (mk buf' (Z.of_nat (n + m)), tt) /\
+                 W (n + m) buf' /\ enc_abs buf' (n + m) = enc_abs buf n ++ bits_of_Z m z.
+Proof. exact encode_signed_appends. Qed.
+Print Assumptions leaf_encode_signed_is_wire.
+
+Theorem leaf_encode_float_is_wire :
+  forall n buf t bits, W n buf ->
+    exists buf', py__encode_builtin_float (mk buf (Z.of_nat n)) t bits = POk (mk buf' (Z.of_nat (n + 32)), tt) /\
+                 W (n + 32) buf' /\ enc_abs buf' (n + 32) = enc_abs buf n ++ bits_of_Z 32 bits.
+Proof. exact encode_float_appends. Qed.
+Print Assumptions leaf_encode_float_is_wire.
+
+Theorem leaf_encode_double_is_wire :
+  forall n buf t bits, W n buf ->
+    exists buf', py__encode_builtin_double (mk buf (Z.of_nat n)) t bits = POk (mk buf' (Z.of_nat (n + 64)), tt) /\
+                 W (n + 64) buf' /\ enc_abs buf' (n + 64) = enc_abs buf n ++ bits_of_Z 64 bits.
+Proof. exact encode_double_appends. Qed.
+Print Assumptions leaf_encode_double_is_wire.
+
+Theorem leaf_decode_unsigned_is_wire :
+  forall buf a m,
+    py__decode_builtin_unsigned (mk buf (Z.of_nat a)) (num m) =
+    match Wire.read_word m (unread buf a) with
+    | Ok (w, _) => POk (mk buf (Z.of_nat (a + m)), w)
+    | Raise _ => PRaise PyValueError
+    end.
+Proof. exact decode_unsigned_is_read_word. Qed.
+Print Assumptions leaf_decode_unsigned_is_wire.
+
+(* the sign reconstruction of the source (max = 2**length; word > max / 2) is the model's py_sdec *)
+Theorem leaf_decode_signed_is_wire_then_py_sdec :
+  forall buf a m,
+    py__decode_builtin_signed (mk buf (Z.of_nat a)) (num m) =
+    match Wire.read_word m (unread buf a) with
+    | Ok (w, _) => POk (mk buf (Z.of_nat (a + m)), py_sdec m w)
+    | Raise _ => PRaise PyValueError
+    end.
+Proof. exact decode_signed_is_read_word_then_sdec. Qed.
+Print Assumptions leaf_decode_signed_is_wire_then_py_sdec.
+
+Theorem leaf_decode_float_is_wire :
+  forall buf a t, (a <= 8 * length buf)%nat ->
+    py__decode_builtin_float (mk buf (Z.of_nat a)) t =
+    match Wire.read_word 32 (unread buf a) with
+    | Ok (w, _) => POk (mk buf (Z.of_nat (a + 32)), w)
+    | Raise _ => PRaise PyValueError
+    end.
+Proof. exact decode_float_is_read_word. Qed.
+Print Assumptions leaf_decode_float_is_wire.
+
+Theorem leaf_decode_double_is_wire :
+  forall buf a t, (a <= 8 * length buf)%nat ->
+    py__decode_builtin_double (mk buf (Z.of_nat a)) t =
+    match Wire.read_word 64 (unread buf a) with
+    | Ok (w, _) => POk (mk buf (Z.of_nat (a + 64)), w)
+    | Raise _ => PRaise PyValueError
+    end.
+Proof. exact decode_double_is_read_word. Qed.
+Print Assumptions leaf_decode_double_is_wire.
+
+Example c02_leaf_nonvacuous :
+  py__decode_builtin_signed (mk [128] 0) (num 8) = POk (mk [128] 8, 128) /\
+  py__decode_builtin_signed (mk [129] 0) (num 8) = POk (mk [129] 8, -127) /\
+  py__decode_builtin_float (mk [0; 0; 192; 63] 0) (num 32) = POk (mk [0; 0; 192; 63] 32, 1069547520).
+Proof. repeat split; vm_compute; reflexivity. Qed.
